@@ -331,6 +331,10 @@ func (a *scriptActor) handle(ctx vivid.ActorContext, depth int) {
 	case umsg:
 		x.ev(map[string]any{"e": "Deliv", "a": a.name, "k": "user", "m": m.ID, "i": a.inst, "s": m.Op, "n": depth})
 		a.doOp(ctx, m)
+	case ves.DeathLetterEvent:
+		if u, ok := m.Envelope.Message().(umsg); ok {
+			x.ev(map[string]any{"e": "Deliv", "a": a.name, "k": "user", "m": u.ID, "i": a.inst, "s": "dlnop", "n": depth})
+		}
 	case asTick:
 		x.ev(map[string]any{"e": "SchedTick", "a": a.name, "i": a.inst})
 	case evA:
@@ -566,6 +570,10 @@ func (o *observer) OnReceive(ctx vivid.ActorContext) {
 		switch um := m.Envelope.Message().(type) {
 		case umsg:
 			e["k"], e["m"] = "user", um.ID
+		case ves.DeathLetterEvent:
+			if u, ok := um.Envelope.Message().(umsg); ok {
+				e["k"], e["m"] = "user", u.ID
+			}
 		case evA:
 			e["k"], e["m"] = "event", um.ID
 		case evB:
@@ -769,6 +777,13 @@ func (x *asExec) do(st asStep) (ok bool) {
 		}
 		id := x.newID()
 		x.ev(map[string]any{"e": "Tell", "a": st.X, "p": "drv", "m": id, "s": st.Op})
+		if st.Op == "dlnop" {
+			// a user message whose payload happens to be a dead-letter event (what a dead-letter monitor forwards to an auditor)
+			x.c.Do("driver", func() {
+				x.sys.Tell(r, ves.DeathLetterEvent{Envelope: mailbox.NewEnvelop(false, nil, r, umsg{ID: id, Op: "nop"}), Time: time.Now()})
+			})
+			break
+		}
 		x.c.Do("driver", func() { x.sys.Tell(r, umsg{ID: id, Op: st.Op, Arg: st.Arg}) })
 	case "kill":
 		r := x.ref(st.X)
